@@ -136,3 +136,6 @@ Inductive ts_test := TT_IsValid | TT_DetRelTol.
 (* parser/filter.rs, create_base_filter_func (filter FUNCTIONS such as blur(2)): the generated filter id is taken only after
    the element's bounding box was found to exist and the region was computed *)
 Inductive filter_fact := FF_GenIdAfterRegionCheck | FF_NoBBoxReturnsEarly.
+
+(* switch.rs is_valid_sys_lang: how one (trimmed) entry of systemLanguage is compared with one user language *)
+Inductive lang_rule := LR_Exact | LR_PrefixDash | LR_StartsWith.
